@@ -21,11 +21,69 @@ structure St where
   apiIds : List (Nat × Nat) := []
   frames : Nat := 0
   idFrames : Nat := 0
+  -- stream mode (a real `Connect::io` endpoint talking to a byte-level spec peer)
+  sBytes : List UInt8 := []
+  sRealChunk : Nat := 0
+  sPeerChunk : Nat := 0
+  sVariant : Nat := 0
+  sConnect : String := ""
+  sRecv : String := ""
+  sAlive : String := ""
+  sFrame : Option (Nat × Nat) := none
+  streamFrames : Nat := 0
 
 def splitBar (s : String) : Option (String × String) :=
   match s.splitOn " | " with
   | [a, b] => some (a.trimAscii.toString, b.trimAscii.toString)
   | _ => none
+
+def kvN (ws : List String) (key : String) : Nat :=
+  (((ws.find? (·.startsWith (key ++ "="))).map (fun w => (w.drop (key.length + 1)).toString)).bind (·.toNat?)).getD 0
+
+/-- split a byte stream into frames with the spec's `unframe` (no length limit: the limit applies
+to what an endpoint *accepts*); returns the frames and the unconsumed rest -/
+def splitFrames : Nat → List UInt8 → List (List UInt8) → Except String (List (List UInt8) × List UInt8)
+  | 0, bs, acc => .ok (acc.reverse, bs)
+  | fuel + 1, bs, acc =>
+    match unframe 4294967295 bs with
+    | .error _ => .error "length prefix beyond u32"
+    | .ok none => .ok (acc.reverse, bs)
+    | .ok (some (f, rest)) => splitFrames fuel rest (f :: acc)
+
+/-- judge the byte stream a real `Connect::io` endpoint produced: a sequence of complete
+length-prefixed frames, first `Reset`, then `Hello` of version 3 announcing the configured chunk size,
+every further frame the canonical encoding of a v3 message, every `Data` header followed by exactly one
+payload frame not longer than the chunk size the peer announced -/
+def judgeStream (st : St) : List String × Nat :=
+  match splitFrames (st.sBytes.length + 1) st.sBytes [] with
+  | .error e => ([s!"byte stream of the real endpoint is not length-prefix framed: {e}"], 0)
+  | .ok (frames, rest) =>
+    let errs : List String := if rest.isEmpty then [] else [s!"{rest.length} trailing bytes do not form a complete frame: {toHex (rest.take 12)}"]
+    let errs := errs ++ (match frames with
+      | f0 :: f1 :: _ =>
+        (match decode f0 with
+         | .ok .reset => []
+         | _ => [s!"first frame is not Reset: {toHex f0}"]) ++
+        (match decode f1 with
+         | .ok (.hello v c) =>
+           (if v == 3 then [] else [s!"Hello announces version {v}"]) ++
+           (if c.chunk == st.sRealChunk then [] else [s!"Hello announces chunk size {c.chunk}, configured {st.sRealChunk}"]) ++
+           (if encode (.hello v c) == f1 then [] else ["Hello is not canonically encoded"])
+         | _ => [s!"second frame is not Hello: {toHex f1}"])
+      | _ => ["fewer than two frames (no handshake)"])
+    let rec walk : List (List UInt8) → Bool → List String → List String
+      | [], _, acc => acc
+      | f :: fs, true, acc =>
+        walk fs false (if f.length ≤ st.sPeerChunk then acc else acc ++ [s!"data payload of {f.length} bytes exceeds the peer's chunk size {st.sPeerChunk}"])
+      | f :: fs, false, acc =>
+        match decode f with
+        | .error _ => walk fs false (acc ++ [s!"frame rejected by the v3 spec decoder: {toHex f}"])
+        | .ok m =>
+          let acc := if encode m == f then acc else acc ++ [s!"frame is not the canonical v3 encoding of {msgToText m}: {toHex f}"]
+          match m with
+          | .data _ _ _ => walk fs true acc
+          | _ => walk fs false acc
+    (walk (frames.drop 2) false errs, frames.length)
 
 def step (st : St) (n : Nat) (line : String) : IO St := do
   let l := line.trimAscii.toString
@@ -36,7 +94,36 @@ def step (st : St) (n : Nat) (line : String) : IO St := do
   let ok : IO St := return { st with lines := st.lines + 1 }
   -- ---- peer mode: lines of a `mux` trace
   match words l with
-  | ["trace", name] => return { st with trace := name, peerVersion := 3, started := false, payloadNext := false, apiIds := [] }
+  | ["trace", name] =>
+    return { st with trace := name, peerVersion := 3, started := false, payloadNext := false, apiIds := [], sBytes := [], sConnect := "", sRecv := "", sAlive := "", sFrame := none }
+  | "scfg" :: ws => return { st with sRealChunk := kvN ws "realchunk", sPeerChunk := kvN ws "peerchunk", sVariant := kvN ws "variant" }
+  | ["sbytes", hx] =>
+    match parseHex hx with
+    | some bs => return { st with sBytes := st.sBytes ++ bs, lines := st.lines + 1 }
+    | none => bad "unparsable hex"
+  | "sret" :: "connect" :: r :: _ => return { st with sConnect := r }
+  | "sret" :: "recv" :: r => return { st with sRecv := " ".intercalate r }
+  | ["sret", "alive", a] => return { st with sAlive := a }
+  | "sret" :: _ => return st
+  | "sframe" :: ws => return { st with sFrame := some (kvN ws "len", kvN ws "max") }
+  | ["sdone"] =>
+    let (errs, nframes) := judgeStream st
+    -- the real endpoint accepted spec-framed input delivered in arbitrary pieces and the echoed value arrived
+    let errs := errs ++ (if st.sConnect == "ok" then [] else [s!"Connect::io did not complete against a spec peer: {st.sConnect}"])
+    let errs := errs ++ (if st.sRecv == "2712847316" then [] else [s!"the value echoed by the spec peer did not arrive: recv {st.sRecv}"])
+    -- maximum frame length: `unframe (maxMsgLength + chunk)` accepts exactly the frames up to the limit
+    let errs := errs ++ (match st.sFrame with
+      | none => if st.sAlive == "1" then [] else [s!"connection not alive at the end of a fault-free exchange: alive={st.sAlive}"]
+      | some (len, mx) =>
+        let specOk := len ≤ maxMsgLength + st.sRealChunk
+        (if mx == maxMsgLength + st.sRealChunk then [] else [s!"harness limit {mx} differs from the spec limit {maxMsgLength + st.sRealChunk}"]) ++
+        (if specOk && st.sAlive != "1" then [s!"a frame of {len} bytes (limit {maxMsgLength + st.sRealChunk}) ended the connection"] else []) ++
+        (if !specOk && st.sAlive == "1" then [s!"a frame of {len} bytes was accepted although the limit is {maxMsgLength + st.sRealChunk}"] else []))
+    let mut st := { st with streamFrames := st.streamFrames + nframes, frames := st.frames + nframes, lines := st.lines + 1 }
+    for e in errs do
+      IO.println s!"DIFF line={n} {st.trace}: {e}"
+      st := { st with diffs := st.diffs + 1 }
+    return st
   | ["injected", _, "hello", v, _, _, _, _] => return { st with peerVersion := v.toNat?.getD 3 }
   | ["apiid", p, i] => return { st with apiIds := st.apiIds ++ [(p.toNat?.getD 0, i.toNat?.getD 0)] }
   | ["new", "B", "ok"] => return { st with started := true }
